@@ -1,6 +1,7 @@
 import PeliteModel.Driver.Image
 import PeliteModel.Driver.Pure
 import PeliteModel.Spec.Dirs
+import PeliteModel.Model.JsonDirs
 /-! Driver handlers for the small directory decoders (C15).  Mirrors harness/src/ops_dirs.rs operation
 for operation; the part after ` ## ` is the executable specification's view of the same input. -/
 namespace Pelite.Driver
@@ -31,7 +32,7 @@ def dirsCv (v : View) (cv : CodeView) : String :=
     | .cv20 _ _ => "cv20"
     | .cv70 _ _ => "cv70"
   let guid := match cv.guidRef with
-    | some g => s!"{ref g}={hex (sliceBytes v.b g)}"
+    | some g => s!"{ref g}={hex (sliceBytes v.b g)}:{hex ((Pelite.Pe.guidText v.b g.off).map Nat.toUInt8).toArray}"
     | none => "none"
   s!"{tag}(img={ref cv.image},sig={cv.cvSignature v.b},off={optNat (cv.offset v.b)},ts={optNat (cv.timestamp v.b)},guid={guid},age={cv.age v.b},fmt={hex (sliceBytes v.b cv.format)},name={ref cv.name})"
 
